@@ -34,6 +34,24 @@ register("C18", "proof",
          "pyvc VC generation from the real AST + ANF/z3/cvc5; loop invariants; modular callee contracts",
          "DESIGN.md 5 (C18)")
 
+register("C19", "proof",
+         "Contracts on Graph.compress/decompress/local_complementation/local_complemented, LCClassN id codec and the linear_index "
+         "codecs, discharged on the property's own finite quantifier domain enumerated completely: every simple graph on 2..6 labelled "
+         "vertices (x every vertex), every class id, every grouping index; compared with an independent bitmask implementation and an "
+         "LC-orbit oracle that also exhibits the local-Clifford witness for each local complementation.",
+         TRUST, "contract obligations discharged by exhaustive enumeration of the finite domain (GROUND) against an independent oracle",
+         "DESIGN.md 5 (C19)")
+
+register("C05", "proof",
+         "Spec function mincost = shortest-path distance in the local-Clifford-class quotient graph (independent oracle). For every class id "
+         "of every advertised configuration (complete finite domain) the recorded cost and the cost of the circuit actually delivered for the "
+         "class representative are compared with it; all competitor circuits are covered by lemma M8. Gaps carry a witness circuit that is "
+         "re-simulated and re-classified by the library itself. The unchanged tree violates the property at 570 listed entries (known findings).",
+         TRUST + " M8 (circuit cost = path length in the quotient graph) is an elementary paper lemma; the oracle's BFS and stabilizer-to-graph "
+         "reduction are trusted and self-tested.",
+         "contract: table cost == spec function (BFS optimum); exhaustive over (configuration, class id); known-findings protocol",
+         "DESIGN.md 5 (C05), 6")
+
 NOT_APPLICABLE = []   # every property is claimed; sub-claims outside the family's reach are labelled in the evidence
 
 
